@@ -5,6 +5,8 @@
 package agg
 
 import (
+	paramproposal "github.com/cosmos/cosmos-sdk/x/params/types/proposal"
+	"github.com/cosmos/cosmos-sdk/x/params"
 	"github.com/teleport-network/teleport/x/aggregate"
 	"bytes"
 	"fmt"
@@ -46,6 +48,7 @@ type Sys struct {
 	tok   map[string]common.Address // "ext", "ext2", "steal", "delayed", "mod" (after registration)
 	dead  bool
 	names []string
+	off   bool // reference model: governance switched the module off (set when the parameter-change proposal is accepted)
 }
 
 var denoms = []string{"acoin", "bcoin", "ccoin"}
@@ -328,12 +331,20 @@ func (s *Sys) Apply(op string) (obs, class string, viols []bfs.Viol) {
 		case "update":
 			content = aggregatetypes.NewUpdateTokenPairERC20Proposal("t", "d", s.addr(f[2]).Hex(), s.addr(f[3]).Hex())
 		case "enable":
-			// parameter change through the keeper (validated bools); not a proposal content of the aggregate route
+			// parameter change through the real parameter-change proposal handler addressing the raw key, as governance does
+			var perr error
 			s.w.Do(s.c, func(ctx sdk.Context) {
-				p := k.GetParams(ctx)
-				p.EnableAggregate = f[2] == "true"
-				k.SetParams(ctx, p)
+				prop := paramproposal.NewParameterChangeProposal("t", "d", []paramproposal.ParamChange{{Subspace: aggregatetypes.ModuleName, Key: "EnableAggregate", Value: f[2]}})
+				cctx, write := ctx.CacheContext()
+				if perr = params.NewParamChangeProposalHandler(s.c.App.ParamsKeeper)(cctx, prop); perr == nil {
+					write()
+				}
 			})
+			if perr != nil {
+				add("C11", "well-formed-parameter-change-refused", perr.Error())
+			} else {
+				s.off = f[2] == "false"
+			}
 			return "params", "params EnableAggregate=" + f[2], s.registryCheck(add)
 		}
 		if err := content.ValidateBasic(); err != nil {
@@ -418,7 +429,7 @@ func (s *Sys) convert(op, dir, d, from, to string, amt int64, tx []byte, add add
 	var viols []bfs.Viol
 	addv := func(prop, sig, dd string) { viols = append(viols, bfs.Viol{Sig: prop + ":" + sig, Detail: dd}) }
 	pair, had := s.pairOfDenom(d)
-	enabled := s.c.App.AggregateKeeper.GetParams(s.c.ReadCtx()).EnableAggregate
+	enabled := !s.off // the reference model's view, not the module's own reading of its parameters
 	before := s.observe()
 	pre := dumpAll(s.c)
 	res := s.w.Block(s.c, tx)[0]
@@ -466,7 +477,7 @@ func (s *Sys) convertERC20(op string, t common.Address, d, from, to string, amt 
 	pair, had := s.pairOf(t)
 	pd, hadD := s.pairOfDenom(d)
 	same := had && hadD && bytes.Equal(pair.GetID(), pd.GetID())
-	enabled := s.c.App.AggregateKeeper.GetParams(s.c.ReadCtx()).EnableAggregate
+	enabled := !s.off // the reference model's view, not the module's own reading of its parameters
 	before := s.observe()
 	pre := dumpAll(s.c)
 	res := s.w.Block(s.c, tx)[0]
@@ -619,7 +630,7 @@ func (s *Sys) Key() string {
 		}
 	}
 	p := s.c.App.AggregateKeeper.GetParams(s.c.ReadCtx())
-	return fmt.Sprintf("%s|en=%v|dead=%s|%s", s.observe(), p.EnableAggregate, destroyed, tmhash.Sum([]byte(strings.Join(ks, ";"))))
+	return fmt.Sprintf("%s|en=%v/%v|dead=%s|%s", s.observe(), p.EnableAggregate, !s.off, destroyed, tmhash.Sum([]byte(strings.Join(ks, ";"))))
 }
 
 func (s *Sys) Check() []bfs.Viol {
